@@ -81,6 +81,8 @@ type Ctx struct {
 	res     PartResult
 	fpset   map[uint64]struct{}
 	curCase int
+	// fallbackSample: descriptor of the first non-trivial case, used when no case recorded a written-out sample
+	fallbackSample any
 }
 
 const maxFingerprints = 400000
@@ -148,6 +150,10 @@ func (c *Ctx) EvalN(n int64) {
 func (c *Ctx) Nontrivial(fp string) {
 	h := hash64(fp)
 	c.mu.Lock()
+	if c.fallbackSample == nil {
+		// kept in case no case of this child records a written-out sample: the descriptor of its first non-trivial case
+		c.fallbackSample = map[string]any{"first_nontrivial_case": fp}
+	}
 	if _, ok := c.fpset[h]; !ok {
 		if len(c.fpset) < maxFingerprints {
 			c.fpset[h] = struct{}{}
@@ -233,6 +239,9 @@ func (c *Ctx) Inconclusive(msg string) {
 
 func (c *Ctx) finish(path string) error {
 	c.mu.Lock()
+	if len(c.res.Samples) == 0 && c.fallbackSample != nil {
+		c.res.Samples = append(c.res.Samples, c.fallbackSample)
+	}
 	defer c.mu.Unlock()
 	c.res.Fingerprints = c.res.Fingerprints[:0]
 	for h := range c.fpset {
